@@ -20,13 +20,17 @@ ASSUME = [
     "mistaken for a protocol proposal (documented pitfall of the wire protocol itself, identical in the reference)",
     "message variant: groupings are cuts of a message at multistream frame boundaries; application data is never packed "
     "into the same message as negotiation frames; names are < 16000 bytes (header + proposal must fit one 16383-byte message)",
+    "carrier flush semantics: write-through (bytes are on the wire when poll_write returns, flush carries no data) or "
+    "buffers-until-flush (poll_write appends to a private buffer, only poll_flush moves bytes to the wire, any non-zero amount "
+    "per poll, Pending until empty; a vanished reader shows as an error of the flush); the buffering carrier only sits on a "
+    "litep2p side; bytes a side never flushed are not owed to the peer",
     "termination is decided by quiescence of the single-threaded scripted environment (no undelivered byte, every live side "
     "parked on an empty read), never by wall-clock time",
     "TLC results hold for the stated small constants (names incl. one with a 2-byte length prefix, lists <= 3, payloads <= 2 bytes)",
 ]
 
 MC_BASE = {"Long": {"L"}, "AppCap": 2, "ReadFrag": True, "WriteFrag": True, "Record": False, "Mut": "none",
-           "Lazies": {True, False}}
+           "Lazies": {True, False}, "Bufs": "<- BufsNone"}
 MC_LINES = ["SPECIFICATION Spec", "INVARIANTS QuiesceOK ReaderInv", "PROPERTIES StepOK", "VIEW View", "CHECK_DEADLOCK TRUE"]
 LIVE_LINES = ["SPECIFICATION FairSpec", "PROPERTIES Terminates", "CHECK_DEADLOCK TRUE"]
 GEN_LINES = ["SPECIFICATION Spec", "VIEW View", "ACTION_CONSTRAINT Emit", "CHECK_DEADLOCK FALSE"]
@@ -46,10 +50,17 @@ CONCRETE = [
 PAIRS = ["lite-lite", "lite-ref", "ref-lite"]
 
 
+def pairs_for(dbuf, lbuf):
+    """a buffering carrier only sits on a litep2p side"""
+    return [p for p in PAIRS if not (dbuf and p.startswith("ref")) and not (lbuf and p.endswith("ref"))]
+
+
 def concretise(beh, i):
     m = CONCRETE[i % len(CONCRETE)]
     return {"variant": "stream", "dlist": [m[x] for x in beh["dlist"]], "lset": [m[x] for x in beh["lset"]],
-            "lazy": beh["lazy"], "dpay": beh["dpay"], "lpay": beh["lpay"], "ops": beh["ops"], "pairs": PAIRS,
+            "lazy": beh["lazy"], "dpay": beh["dpay"], "lpay": beh["lpay"], "ops": beh["ops"],
+            "dbuf": beh.get("dbuf", False), "lbuf": beh.get("lbuf", False),
+            "pairs": pairs_for(beh.get("dbuf", False), beh.get("lbuf", False)),
             "seed": i, "cap": 2, "p_pend": [0.0, 0.3][(i // len(CONCRETE)) % 2]}
 
 
@@ -66,6 +77,9 @@ def classify(seg, idx):
     common = any(n in hdr["lset"] for n in hdr["dlist"])
     parts = [hdr.get("variant", "?"), "%s-%s" % (hdr.get("dimpl"), hdr.get("limpl")),
              "lazy" if hdr.get("lazy") else "v1", "common" if common else "disjoint", ev.get("e", "?")]
+    if hdr.get("dbuf") or hdr.get("lbuf"):
+        # carrier that buffers until flushed on the dialer's / listener's side
+        parts.insert(2, "buf" + ("d" if hdr.get("dbuf") else "") + ("l" if hdr.get("lbuf") else ""))
     if ev.get("e") == "done":
         parts += [ev["s"], "ok" if ev["ok"] else "fail"]
     elif "s" in ev:
@@ -78,12 +92,18 @@ def is_reset(ln):
 
 
 def validate_unique(ctx, lines, tag):
-    """Validate every execution; textually identical executions are validated once (TLC is a
-    function of the text).  Returns (n_exec, n_unique, events_validated, rejects[(seg, idx, first_exec_index)])."""
+    """Validate every execution; executions whose traces are identical in everything the trace spec reads
+    (configuration fields dlist/lset/lazy/dpay/lpay and the events; not the implementation pairing or the carrier
+    kind, which the Prop layer does not know) are validated once: TLC's verdict is a function of that text.
+    Returns (n_exec, n_unique, events_validated, rejects[(seg, idx, first_exec_index)])."""
     segs = split_segments(lines, is_reset)
     first = {}
     for i, s in enumerate(segs):
-        first.setdefault("\n".join(s), i)
+        h = json.loads(s[0])
+        key = json.dumps([h["dlist"], h["lset"], h["lazy"], h["dpay"], h["lpay"]]) + "\n" + "\n".join(s[1:])
+        if key not in first:
+            first[key] = (i, "\n".join(s))
+    first = {txt: i for i, txt in first.values()}
     uniq = sorted(first.items(), key=lambda kv: kv[1])
     rejects = []
     nev = 0
@@ -126,12 +146,20 @@ def check(ctx):
     quick = ctx.quick()
     mc = []
     mc.append(run_mc(ctx, "mid" if quick else "huge", MID if quick else HUGE, MC_LINES))
-    mc.append(run_mc(ctx, "live", SMALL, LIVE_LINES, workers=6))
+    # carriers that buffer until flushed, on either or both sides
+    mc.append(run_mc(ctx, "buf", dict(SMALL if quick else MID, Bufs="<- BufsSome"), MC_LINES))
+    mc.append(run_mc(ctx, "live", dict(SMALL, Names={"a", "L"}, Bufs="<- BufsAll") if quick else dict(SMALL, Bufs="<- BufsAll"),
+                     LIVE_LINES, workers=6))
     mc.append(run_mc(ctx, "msg", {"Names": {"a", "b", "c", "L"}, "MaxList": 3 if quick else 4, "Record": False, "Mut": "none"},
                      MSG_LINES, spec="MultistreamMsg.tla", workers=4))
     # behaviours: io script of every transition of a bounded graph
     gen_consts = dict(SMALL, Record=True) if quick else dict(MC_BASE, Names={"a", "b", "c", "L"}, MaxList=2, Pays="<- PaysDef", Record=True)
     behs, gstats = tlc_generate(ctx, "MultistreamMC.tla", write_cfg(ctx, "gen.cfg", gen_consts, GEN_LINES), timeout=1500)
+    bbehs, bstats = tlc_generate(ctx, "MultistreamMC.tla", write_cfg(
+        ctx, "gen_buf.cfg", dict(SMALL, Record=True, Bufs="<- BufsSome", **({"Names": {"a", "L"}} if quick else {})), GEN_LINES), timeout=1500)
+    gstats = {"write_through": gstats, "buffering": bstats}
+    behs += bbehs
+    del bbehs
     mbehs, mstats = tlc_generate(ctx, "MultistreamMsg.tla", write_cfg(
         ctx, "gen_msg.cfg", {"Names": {"a", "b", "c"}, "MaxList": 3, "Record": True, "Mut": "none"}, MSG_GEN_LINES))
     log("GEN: %s; msg: %s" % (gstats, mstats))
@@ -139,7 +167,7 @@ def check(ctx):
     write_jsonl(ctx.path("jobs.jsonl"), jobs)
     del behs, jobs
     build_s = cargo_build(ctx, ["mss"])
-    nrand, nmsg = (100000, 20000) if quick else (3000000, 300000)
+    nrand, nmsg = (100000, 20000) if quick else (2400000, 300000)
     summ, _ = harness(ctx, "mss", ["--jobs", ctx.path("jobs.jsonl"), "--random", nrand, "--random-msg", nmsg, "--seed", ctx.seed,
                                    "--threads", min(10, int(os.environ.get("VERIF_WORKERS", "12"))), "--out", ctx.path("trace.ndjson"), "--jobs-out", ctx.path("jobs_out.jsonl")])
     brief = {k: v for k, v in summ.items() if k != "drift_examples"}
@@ -239,6 +267,7 @@ def selftest(ctx):
     ok &= all(v >= 1 for v in muts.values())
     for mut, spec, consts, lines_ in (
             ("overread", "MultistreamMC.tla", dict(SMALL, Mut="overread"), MC_LINES),
+            ("skipflush", "MultistreamMC.tla", dict(SMALL, Names={"a", "L"}, Mut="skipflush", Bufs="<- BufsSome"), MC_LINES),
             ("lazyall", "MultistreamMC.tla", dict(SMALL, Mut="lazyall"), MC_LINES),
             ("nohdrflag", "MultistreamMsg.tla", {"Names": {"a", "b"}, "MaxList": 2, "Record": False, "Mut": "nohdrflag"}, MSG_LINES),
             ("nofallback", "MultistreamMsg.tla", {"Names": {"a", "b"}, "MaxList": 2, "Record": False, "Mut": "nofallback"}, MSG_LINES)):
